@@ -665,6 +665,9 @@ pub enum UpdateMode {
     KeepChanged,
     /// the same object, all setters
     KeepAll,
+    /// the same object, all setters, in the given rotation of the order (English, phonetic list, fixed list, auto vowel,
+    /// auto chandrabindu, traditional kar, old reph, number pad, old kar order, ANSI, smart quotes), reversed if true
+    KeepAllRot(usize, bool),
 }
 
 pub struct Ctx {
@@ -728,13 +731,13 @@ impl Ctx {
         let keep = possible && match mode {
             UpdateMode::Auto => h % 2 == 0,
             UpdateMode::NewObject => false,
-            UpdateMode::KeepChanged | UpdateMode::KeepAll => true,
+            UpdateMode::KeepChanged | UpdateMode::KeepAll | UpdateMode::KeepAllRot(..) => true,
         };
         if keep {
             let c: *mut Config = &mut *self.cfg;
             let only_changed = match mode {
                 UpdateMode::KeepChanged => true,
-                UpdateMode::KeepAll => false,
+                UpdateMode::KeepAll | UpdateMode::KeepAllRot(..) => false,
                 _ => (h / 2) % 2 == 0,
             };
             let old = self.opts;
@@ -756,7 +759,10 @@ impl Ctx {
                     (old.ansi != opts.ansi, &|| riti_config_set_ansi_encoding(c, opts.ansi)),
                     (old.smart != opts.smart, &|| riti_config_set_smart_quote(c, opts.smart)),
                 ];
-                let (rot, rev) = ((h / 4) % 11, (h / 44) % 2 == 1);
+                let (rot, rev) = match mode {
+                    UpdateMode::KeepAllRot(r, v) => (r % 11, v),
+                    _ => ((h / 4) % 11, (h / 44) % 2 == 1),
+                };
                 for i in 0..11 {
                     let j = (i + rot) % 11;
                     let (changed, f) = setters[if rev { 10 - j } else { j }];
